@@ -596,10 +596,10 @@ def solve_projection_onto_manifold_newton_with_line_search(
             delta_pos = -dh2_flow_pos_dmom @ delta_mu
             pos_curr = state.pos.copy()
             step_size = 1.0
-            for _ in range(max_line_search_iters):
+            for j in range(max_line_search_iters):
                 state.pos = pos_curr + step_size * delta_pos
                 new_error = norm(system.constr(state))
-                if new_error < error:
+                if new_error < error or j == max_line_search_iters - 1:
                     break
                 step_size *= 0.5
             mu += step_size * delta_mu
